@@ -451,3 +451,152 @@ Proof.
   rewrite skipn_app. rewrite skipn_all2 by lia. replace (length l1 + 1 - length l1)%nat with 1%nat by lia.
   reflexivity.
 Qed.
+
+(* ---- every index touched by a slice is in range; they are pairwise distinct ---- *)
+Lemma slice_indices_range len s start stop step n : 0 <= len ->
+  slice_indices len s = Some (start, stop, step, n) ->
+  step <> 0 /\ 0 <= n /\ (forall k, 0 <= k < n -> 0 <= start + k * step < len).
+Proof.
+  intros Hlen Hsi. unfold slice_indices in Hsi.
+  set (st := match sl_step s with None => 1 | Some k => k end) in *.
+  destruct (st =? 0) eqn:Est; [discriminate|].
+  injection Hsi as Hstart Hstop Hstep Hn. rewrite Hstep in *.
+  rewrite Hstart, Hstop in Hn.
+  assert (Hs0 : step <> 0) by lia.
+  assert (Hnn : 0 <= n) by (rewrite <- Hn; apply slicelength_nonneg; exact Hs0).
+  split; [exact Hs0|]. split; [exact Hnn|].
+  intros k Hk.
+  destruct (step <? 0) eqn:Eneg.
+  - assert (Hs : step < 0) by lia.
+    assert (Hb1 : -1 <= start <= len - 1).
+    { rewrite <- Hstart. destruct (sl_start s); [apply adj_bound_range_neg; lia|lia]. }
+    assert (Hb2 : -1 <= stop <= len - 1).
+    { rewrite <- Hstop. destruct (sl_stop s); [apply adj_bound_range_neg; lia|lia]. }
+    assert (Hlt : stop < start).
+    { rewrite <- Hn in Hk. unfold slicelength in Hk. rewrite Eneg in Hk. destruct (stop <? start) eqn:E; lia. }
+    destruct (slicelength_last_neg start stop step Hs Hlt) as [Hlast _]. rewrite Hn in Hlast.
+    assert (k * step >= (n - 1) * step) by nia.
+    assert (k * step <= 0) by nia. lia.
+  - assert (Hs : 0 < step) by lia.
+    assert (Hb1 : 0 <= start <= len).
+    { rewrite <- Hstart. destruct (sl_start s); [apply adj_bound_range_pos; lia|lia]. }
+    assert (Hb2 : 0 <= stop <= len).
+    { rewrite <- Hstop. destruct (sl_stop s); [apply adj_bound_range_pos; lia|lia]. }
+    assert (Hlt : start < stop).
+    { rewrite <- Hn in Hk. unfold slicelength in Hk. rewrite Eneg in Hk. destruct (start <? stop) eqn:E; lia. }
+    destruct (slicelength_last_pos start stop step Hs Hlt) as [Hlast _]. rewrite Hn in Hlast.
+    assert (k * step <= (n - 1) * step) by nia.
+    assert (0 <= k * step) by nia. lia.
+Qed.
+
+(* ---- set_nth ---- *)
+Lemma set_nth_length {A} (l : list A) k x : length (set_nth l k x) = length l.
+Proof.
+  unfold set_nth. destruct (skipn k l) as [|y r] eqn:E; [reflexivity|].
+  rewrite app_length. cbn [length].
+  assert (H : length (skipn k l) = S (length r)) by (rewrite E; reflexivity).
+  rewrite skipn_length in H. rewrite firstn_length. lia.
+Qed.
+Lemma set_nth_same {A} (l : list A) k x : (k < length l)%nat -> nth_error (set_nth l k x) k = Some x.
+Proof.
+  intros H. unfold set_nth. destruct (skipn k l) as [|y r] eqn:E.
+  - assert (H' : length (skipn k l) = 0%nat) by (rewrite E; reflexivity). rewrite skipn_length in H'. lia.
+  - rewrite nth_error_app2 by (rewrite firstn_length; lia).
+    rewrite firstn_length. replace (k - Nat.min k (length l))%nat with 0%nat by lia. reflexivity.
+Qed.
+Lemma set_nth_other {A} (l : list A) k x p : p <> k -> nth_error (set_nth l k x) p = nth_error l p.
+Proof.
+  intros H. unfold set_nth. destruct (skipn k l) as [|y r] eqn:E; [reflexivity|].
+  assert (Hl : l = firstn k l ++ y :: r) by (rewrite <- E; symmetry; apply firstn_skipn).
+  assert (Hk : (k < length l)%nat).
+  { assert (H' : length (skipn k l) = S (length r)) by (rewrite E; reflexivity). rewrite skipn_length in H'. lia. }
+  assert (Hf : length (firstn k l) = k) by (rewrite firstn_length; lia).
+  rewrite Hl at 2.
+  destruct (Nat.lt_ge_cases p k) as [Hp|Hp].
+  - rewrite !nth_error_app1 by lia. reflexivity.
+  - rewrite !nth_error_app2 by lia. rewrite Hf.
+    destruct (p - k)%nat as [|q] eqn:Eq; [lia|]. reflexivity.
+Qed.
+Lemma set_nth_map {A B} (f : A -> B) (l : list A) k x : set_nth (map f l) k (f x) = map f (set_nth l k x).
+Proof.
+  unfold set_nth. rewrite skipn_map, firstn_map. destruct (skipn k l); cbn [map]; [reflexivity|].
+  rewrite map_app. reflexivity.
+Qed.
+
+(* ---- extended slice assignment ---- *)
+Lemma ass_step_spec {A} : forall n cur step (l v : list A),
+  length v = n -> step <> 0 ->
+  (forall k, 0 <= k < Z.of_nat n -> 0 <= cur + k * step < Z.of_nat (length l)) ->
+  let r := ass_step n cur step l v in
+  length r = length l /\
+  (forall k, (k < n)%nat -> nth_error r (Z.to_nat (cur + Z.of_nat k * step)) = nth_error v k) /\
+  (forall p, (forall k, (k < n)%nat -> p <> Z.to_nat (cur + Z.of_nat k * step)) -> nth_error r p = nth_error l p).
+Proof.
+  induction n as [|n IH]; intros cur step l v Hv Hs Hr r.
+  - subst r. cbn [ass_step]. split; [reflexivity|]. split; [intros k Hk; lia|]. intros p _. reflexivity.
+  - destruct v as [|x v]; [discriminate|]. cbn [length] in Hv. subst r. cbn [ass_step].
+    set (l' := set_nth l (Z.to_nat cur) x).
+    assert (Hl' : length l' = length l) by apply set_nth_length.
+    assert (H0 : 0 <= cur < Z.of_nat (length l)) by (specialize (Hr 0); lia).
+    assert (Hr' : forall k, 0 <= k < Z.of_nat n -> 0 <= (cur + step) + k * step < Z.of_nat (length l')).
+    { intros k Hk. rewrite Hl'. specialize (Hr (k + 1)).
+      replace (cur + step + k * step) with (cur + (k + 1) * step) by ring. lia. }
+    destruct (IH (cur + step) step l' v ltac:(lia) Hs Hr') as (IL & IN & IO).
+    split; [rewrite IL; exact Hl'|]. split.
+    + intros [|k] Hk.
+      * cbn [nth_error Z.of_nat]. replace (cur + 0 * step) with cur by ring.
+        rewrite IO.
+        -- apply set_nth_same. lia.
+        -- intros k Hk'. specialize (Hr' (Z.of_nat k) ltac:(lia)). rewrite Hl' in Hr'.
+           assert (Z.of_nat k * step + step <> 0) by nia. lia.
+      * cbn [nth_error]. rewrite <- IN by lia. f_equal. f_equal. lia.
+    + intros p Hp. rewrite IO.
+      * apply set_nth_other. specialize (Hp 0%nat ltac:(lia)). cbn [Z.of_nat] in Hp.
+        replace (cur + 0 * step) with cur in Hp by ring. exact Hp.
+      * intros k Hk. specialize (Hp (S k) ltac:(lia)).
+        replace (cur + Z.of_nat (S k) * step) with (cur + step + Z.of_nat k * step) in Hp by lia. exact Hp.
+Qed.
+
+(* l[a:b:c] = v for c <> 1: ValueError unless len(v) = slicelength; else v[k] lands at start + k*c, the rest is kept *)
+Lemma setslice_extended {A} (l v : list A) s start stop step n :
+  slice_indices (Z.of_nat (length l)) s = Some (start, stop, step, n) -> step <> 1 ->
+  (Z.of_nat (length v) <> n -> setslice l s v = Err ValueError) /\
+  (Z.of_nat (length v) = n -> exists r, setslice l s v = Ok r /\ length r = length l /\
+     (forall k, (k < length v)%nat -> nth_error r (Z.to_nat (start + Z.of_nat k * step)) = nth_error v k) /\
+     (forall p, (forall k, (k < length v)%nat -> p <> Z.to_nat (start + Z.of_nat k * step)) -> nth_error r p = nth_error l p)).
+Proof.
+  intros Hsi H1. unfold setslice. rewrite Hsi.
+  destruct (step =? 1) eqn:E1; [lia|].
+  destruct (slice_indices_range (Z.of_nat (length l)) s start stop step n (Nat2Z.is_nonneg _) Hsi) as (Hs0 & Hn & Hr).
+  split; intros Hv.
+  - destruct (Z.of_nat (length v) =? n) eqn:E; [lia|reflexivity].
+  - destruct (Z.of_nat (length v) =? n) eqn:E; [|lia].
+    eexists. split; [reflexivity|].
+    replace (Z.to_nat n) with (length v) by lia.
+    apply ass_step_spec; [reflexivity|exact Hs0|]. intros k Hk. apply Hr. lia.
+Qed.
+
+Lemma setitem_int_err {A} (l : list A) i v e : getitem l i = Err e -> setitem_int l i v = Err e.
+Proof.
+  unfold getitem, setitem_int. set (n := Z.of_nat (length l)). set (i' := if i <? 0 then i + n else i).
+  destruct ((i' <? 0) || (i' >=? n)) eqn:Eb; [intros H; inversion H; reflexivity|].
+  destruct (nth_error l (Z.to_nat i')) eqn:E2; [discriminate|].
+  apply nth_error_None in E2. unfold n in Eb. lia.
+Qed.
+
+(* assignment commutes with an element-wise map (used for list(data) ... ''.join) *)
+Lemma ass_step_map {A B} (f : A -> B) : forall n cur step (l v : list A),
+  ass_step n cur step (map f l) (map f v) = map f (ass_step n cur step l v).
+Proof.
+  induction n as [|n IH]; intros cur step l v; [reflexivity|].
+  destruct v as [|x v]; [reflexivity|]. cbn [map ass_step]. rewrite set_nth_map. apply IH.
+Qed.
+Lemma setslice_map {A B} (f : A -> B) (l v : list A) s :
+  setslice (map f l) s (map f v) = match setslice l s v with Ok r => Ok (map f r) | Err e => Err e end.
+Proof.
+  unfold setslice. rewrite !map_length.
+  destruct (slice_indices (Z.of_nat (length l)) s) as [[[[a b] c] n]|]; [|reflexivity].
+  destruct (c =? 1).
+  - unfold ass_slice. rewrite !map_app, firstn_map, skipn_map. reflexivity.
+  - destruct (Z.of_nat (length v) =? n); [|reflexivity]. rewrite ass_step_map. reflexivity.
+Qed.
